@@ -11,6 +11,9 @@
                            min(total, size) input bytes at their masked positions (+ position, tail mirror, wrap bytes)
      C01_ringbuffer_asfound_refuted   the position fold the tree had before fix dd9b0c6 loses bit 30 under a 31-bit mask
      C01_header_*          the meta-block header writers are read back by the decoder spec D, for all lengths
+     C01_stream_roundtrip_stored   the part of the composition that lies entirely in modelled code: a stream
+                           header + uncompressed meta-blocks + the empty last meta-block, written by the
+                           modelled writers, is decoded by D to exactly the stored bytes (all lengths, all windows)
    and what is stated but not proved:
      C01_stream_roundtrip_modulo_heuristics_stmt   the composition over the stream glue model with the
                            visible hypothesis that the compression back ends emit meta-blocks that D decodes
@@ -18,7 +21,7 @@
 From Coq Require Import NArith ZArith List Bool.
 From V Require Import lib.Words lib.PMap gen.GenFormat spec.RfcTables spec.PrefixCode spec.Decoder
   model.EncConfig model.RingBuf model.MetaBlockHeader model.Stream
-  proofs.Format_proofs proofs.RingBuf_proofs proofs.MbHeader_proofs proofs.Stream_proofs.
+  proofs.Format_proofs proofs.RingBuf_proofs proofs.MbHeader_proofs proofs.Stream_proofs proofs.Stored_proofs.
 Import ListNotations.
 Open Scope N_scope.
 
@@ -137,6 +140,30 @@ Proof. exact context_id_matches_encoder. Qed.
 Print Assumptions C01_context_id.
 
 (* ---------------------------------------------------------------- (e) the composition *)
+(* proved part: D o W = id on stored streams.  [store_chunks] is the writer of BrotliStoreUncompressedMetaBlock
+   for every chunk followed by BrotliWriteEmptyLastMetaBlock; the header premise is met by the
+   encoder's own stream header for every window it can declare (C01_window_bits_read). *)
+Theorem C01_stream_roundtrip_stored : forall dict_word transform_tbl hb wbits large chunks budget,
+  (forall rest, read_wbits true (hb ++ rest) = Ok ((wbits, large), rest)) ->
+  Forall chunk_ok chunks -> N.of_nat (length chunks) + 1 <= budget ->
+  exists bs info, store_chunks chunks hb = Some bs /\ Nat.modulo (length bs) 8 = 0%nat /\
+    decode_bits dict_word transform_tbl true [] bs budget = Ok (concat chunks, info).
+Proof. exact stored_stream_roundtrip. Qed.
+Print Assumptions C01_stream_roundtrip_stored.
+
+Theorem C01_window_bits_read : forall (w : Z) (lw : bool), (10 <= w <= 30)%Z -> (lw = false -> (w <= 24)%Z) ->
+  forall rest, read_wbits true (N_to_bits (N.to_nat (snd (encode_window_bits w lw))) (fst (encode_window_bits w lw)) ++ rest)
+               = Ok ((Z.to_N w, lw), rest).
+Proof. exact window_bits_read. Qed.
+Print Assumptions C01_window_bits_read.
+
+Example C01_stream_roundtrip_stored_example :
+  match store_chunks [[104; 105]; [33]] (N_to_bits 4 11) with
+  | Some bs => decode_bits (fun _ _ => []) (fun _ => None) true [] bs 3 = Ok ([104; 105; 33], nset (nset (nset PE 25 22) 2 2) 4 1)
+  | None => False
+  end.
+Proof. vm_compute. reflexivity. Qed.
+
 Section Composition.
   Variable dict_word : N -> N -> list N.
   Variable transform_tbl : N -> option (list N * N * list N).
